@@ -119,7 +119,7 @@ def k2(ctx):
         inline = filename.is_const and filename.val is None
         opens = _open_events(p.trace)
         rec = {'inline': inline, 'value': value, 'open': _open_recipe(opens[-1]) if opens else None, 'path': p,
-               'dumps': [e for e in p.trace if e.kind == 'EXT' and e.d['name'] == 'pickle.dumps']}
+               'dumps': [e for e in p.trace if e.kind == 'EXT' and e.d['name'] in ('pickle.dumps', 'pickle.dump')]}
         W.setdefault((m, inline), []).append(rec)
     R = {}
     for p in fp:
@@ -168,6 +168,64 @@ def k2(ctx):
         elif not (r['rv'].k == 'ext' and r['rv'].a[0] == 'builtins.open'):
             ok, why = False, 'reader returns neither the handle nor its full contents'
     add('BINARY/reader', ok, 'MODE_BINARY ' + why)
+    # streams (read=True) are consumed to end-of-file
+    okst, whyst, nst = True, '', 0
+    for rec in wb:
+        p = rec['path']
+        wcalls = [e for e in p.trace if e.kind == 'CALL' and any(t.qual.endswith('Disk._write') for t in e.d['targets'])]
+        if not wcalls or len(wcalls[-1].d['args']) < 2:
+            continue
+        itv = wcalls[-1].d['args'][1]
+        if itv.k == 'ext' and itv.a[0] == 'io.BytesIO':
+            continue     # in-memory bytes
+        nst += 1
+        if itv.k == 'term' and itv.a[0] == 'iter' and len(itv.a[1]) == 2:
+            fn, sentinel = itv.a[1]
+            good = sentinel.is_const and sentinel.val == b''
+            if fn.k == 'ext' and fn.a[0] == 'functools.partial':
+                pev = p.trace[fn.a[1]]
+                a0 = pev.d['args'][0] if pev.d['args'] else None
+                good = good and a0 is not None and a0.k == 'attr' and a0.a[1] == 'read' and a0.a[0].k == 'param'
+            elif not (fn.k == 'attr' and fn.a[1] == 'read'):
+                good = False
+            if not good:
+                okst, whyst = False, 'the stream is not read with iter(<value.read>, b\'\'): it may stop before end-of-file'
+        elif itv.k == 'ret':
+            for q in itv.a[1]:
+                g = ctx.prog.funcs.get(q)
+                if g is None:
+                    okst, whyst = False, 'chunk iterator %s not analysable' % q
+                    continue
+                for gp in ctx.paths(g, 'plain'):
+                    if gp.kind not in ('return', 'next'):
+                        continue
+                    reads = [e for e in gp.trace if e.kind == 'MCALL' and e.d['name'] == 'read']
+                    if not reads:
+                        continue
+                    last = reads[-1]
+                    cv = V('mcall', 'read', last.seq)
+                    empties = False
+                    for e in gp.trace[last.seq:]:
+                        if e.kind != 'TEST':
+                            continue
+                        v = e.d['val']
+                        if v == cv and not e.d['truth']:
+                            empties = True
+                        if v.k == 'not' and v.a[0] == cv and e.d['truth']:
+                            empties = True
+                        if v.k == 'cmp' and v.a[0] == ('Eq',) and e.d['truth'] and cv in v.a[1] and any(
+                                x.is_const and x.val == b'' for x in v.a[1]):
+                            empties = True
+                        if v.k == 'cmp' and v.a[0] == ('Eq',) and e.d['truth'] and any(
+                                x.k == 'term' and x.a[0] == 'len' and x.a[1] == (cv,) for x in v.a[1]) and any(
+                                x.is_const and x.val == 0 for x in v.a[1]):
+                            empties = True
+                    if not empties:
+                        okst, whyst = False, 'the chunk generator %s stops although the last read was not empty ' \
+                                             '(a short read is not end-of-file for pipes, sockets, raw streams)' % q
+        else:
+            okst, whyst = False, 'chunk iterator of unknown shape %r' % (itv,)
+    add('BINARY/stream-read-to-eof', okst and nst > 0, whyst or 'no stream path found')
     # TEXT
     wt = W.get(('MODE_TEXT', False), [])
     add('TEXT/never-inline', not W.get(('MODE_TEXT', True)), 'MODE_TEXT returned without a file')
@@ -494,6 +552,17 @@ def k5(ctx):
                     if 'access_count' in bycol and set(bycol) >= set(ROW_COLS):
                         if not (bycol['access_count'].is_const and bycol['access_count'].val == 0):
                             ok, why = False, 'a full row write must reset access_count to 0'
+                    if set(bycol) >= set(ROW_COLS) and st.kind == 'update':
+                        need = {'store_time', 'expire_time', 'access_time', 'access_count', 'tag'} | set(ROW_COLS)
+                        missing = sorted(need - set(bycol))
+                        if missing:
+                            ok, why = False, 'a full overwrite of a row leaves column(s) %s of the OLD item in place ' \
+                                             '(an overwritten item must start like a new one)' % missing
+                    if st.kind == 'insert' and set(bycol) >= set(ROW_COLS):
+                        need = {'key', 'raw', 'store_time', 'expire_time', 'access_time', 'tag'} | set(ROW_COLS)
+                        missing = sorted(need - set(bycol))
+                        if missing:
+                            ok, why = False, 'the row INSERT does not set column(s) %s' % missing
                     if 'where:rowid' in bycol:
                         pv = bycol['where:rowid']
                         if not (pv.k == 'col' and pv.a[1] == 'rowid'):
@@ -573,3 +642,57 @@ def _top_conjunct(w, col):
     if w[0] == 'and':
         return _top_conjunct(w[1], col) or _top_conjunct(w[2], col)
     return w[0] == 'cmp' and w[1] == '=' and (sqlmod.colname(w[2]) == col or sqlmod.colname(w[3]) == col)
+
+
+# ---------------------------------------------------------------------- K7
+@rule('K7', floor=2, title='Disk serialization is re-entrant: no mutable scratch state on the shared Disk object')
+def k7(ctx):
+    """One Disk object serves every thread of a Cache and store()/put() run
+    outside the write lock: instance attributes may only be configuration."""
+    obs = []
+    for cname in ('Disk', 'JSONDisk'):
+        ci = ctx.prog.classes.get(cname)
+        if ci is None:
+            continue
+        init = ci.methods.get('__init__')
+        config, objects = set(), set()
+        if init is not None:
+            params = set(init.posparams) | set(init.kwonly)
+            for n in ast.walk(init.node):
+                if isinstance(n, ast.Assign):
+                    for t in n.targets:
+                        if isinstance(t, ast.Attribute) and isinstance(t.value, ast.Name) and t.value.id == 'self':
+                            if isinstance(n.value, ast.Constant) or (isinstance(n.value, ast.Name) and n.value.id in params):
+                                config.add(t.attr)
+                            else:
+                                objects.add(t.attr)
+        bad = []
+        for mname, m in ci.methods.items():
+            if mname == '__init__':
+                continue
+            for n in ast.walk(m.node):
+                if isinstance(n, ast.Attribute) and isinstance(n.value, ast.Name) and n.value.id == 'self':
+                    if isinstance(n.ctx, (ast.Store, ast.Del)):
+                        bad.append((m, n, 'assigns self.%s' % n.attr))
+                    elif n.attr in objects:
+                        bad.append((m, n, 'uses the shared object self.%s' % n.attr))
+                if isinstance(n, (ast.Global, ast.Nonlocal)):
+                    bad.append((m, n, 'uses global state'))
+        # module-level mutable caches used by the class (functools.lru_cache on helpers called from it)
+        obs.append(Ob('K7', '%s/no-shared-scratch-state' % cname, not bad,
+                      '%s: the Disk object is shared by all threads and its store/put run outside the write lock; a '
+                      'scratch buffer or per-call state on the instance lets two overlapping calls mix their data' %
+                      '; '.join('%s %s' % (m.qual, w) for m, n, w in bad[:4]),
+                      bad[0][0].loc(bad[0][1]) if bad else 'diskcache/core.py:1'))
+    # no memoisation of key/value serialisation (equal-but-different-type keys would share an entry)
+    bad = []
+    for f in ctx.prog.all_funcs():
+        if f.module != 'core':
+            continue
+        if any('lru_cache' in d or d.endswith('.cache') or d == 'cache' for d in f.decorators):
+            bad.append(f)
+    obs.append(Ob('K7', 'core/no-memoised-serialisation', not bad,
+                  'functions of core.py are memoised by equality (%s): keys that compare equal but differ in type '
+                  '(1, 1.0, True inside a tuple) would be serialised as one another' % ', '.join(f.qual for f in bad),
+                  bad[0].loc() if bad else 'diskcache/core.py:1'))
+    return obs
